@@ -40,6 +40,10 @@ type LinkCase struct {
 	// Cross: two subscribers; the peer named by Iface holds its answers to subscriber A for 2 s (well within the
 	// time-out) while subscriber B's update starts 0.7 s after A's: each must act on its own answers
 	Cross bool `json:"cross"`
+	// Release2: the subscriber has a second charging session; the FIRST operation of the case is the release of that
+	// session (it reports online usage, so it has a rating / account round of its own, subject to fates[0]); the
+	// following operations are updates of the first session
+	Release2 bool `json:"release2"`
 }
 
 // DensePos reports whether the fates are to be laid over consecutive rating requests of one update.
@@ -89,6 +93,8 @@ func (p *scriptedPeer) arrive(answerN func(n int)) (n int) {
 	switch fate {
 	case "", "prompt":
 		go func() { time.Sleep(delay); answer() }()
+	case "slow": // well within the time-out
+		go func() { time.Sleep(2000 * time.Millisecond); answer() }()
 	case "late_idle":
 		go func() { time.Sleep(5600 * time.Millisecond); answer() }()
 	case "late_during_next":
@@ -297,11 +303,18 @@ func RunLink(prefix, in, out string) error {
 		if i := strings.LastIndex(hr.Location, "/"); i >= 0 {
 			ref = hr.Location[i+1:]
 		}
+		ref2 := ""
+		if c.Release2 {
+			hr2 := env.Do("POST", "/nchf-convergedcharging/v3/chargingdata", []byte(strings.Replace(body, `"chargingId":3`, `"chargingId":4`, 1)), nil, 10*time.Second)
+			if i := strings.LastIndex(hr2.Location, "/"); i >= 0 {
+				ref2 = hr2.Location[i+1:]
+			}
+		}
 		var updates []any
 		wedged := false
 		for n, fate := range c.Fates {
 			if wedged {
-				updates = append(updates, map[string]any{"n": n + 1, "skipped": true, "finished": false, "status": -2, "own": map[string]any{"abmf": []int{}, "rating": []int{}},
+				updates = append(updates, map[string]any{"n": n + 1, "skipped": true, "finished": false, "status": -2, "okStatus": 200, "own": map[string]any{"abmf": []int{}, "rating": []int{}},
 					"usedAbmf": -1, "usedRating": -1, "usedCost": -1, "usedCostFirst": -1, "ms": 0})
 				continue
 			}
@@ -332,7 +345,14 @@ func RunLink(prefix, in, out string) error {
 			upd := fmt.Sprintf(`{"subscriberIdentifier":%q,"invocationSequenceNumber":%d,"multipleUnitUsage":[{"ratingGroup":1,"requestedUnit":{"totalVolume":%d},"usedUnitContainer":[{"quotaManagementIndicator":"ONLINE_CHARGING","totalVolume":0,"localSequenceNumber":%d}]}]}`,
 				supi, n+2, 100000*(n+1), n+1)
 			t0 := time.Now()
-			res := env.Do("POST", "/nchf-convergedcharging/v3/chargingdata/"+ref+"/update", []byte(upd), nil, 45*time.Second)
+			okStatus := 200
+			var res HTTPResult
+			if c.Release2 && n == 0 {
+				okStatus = 204
+				res = env.Do("POST", "/nchf-convergedcharging/v3/chargingdata/"+ref2+"/release", []byte(upd), nil, 45*time.Second)
+			} else {
+				res = env.Do("POST", "/nchf-convergedcharging/v3/chargingdata/"+ref+"/update", []byte(upd), nil, 45*time.Second)
+			}
 			ms := time.Since(t0).Milliseconds()
 			rfp.mu.Lock()
 			abp.mu.Lock()
@@ -374,7 +394,7 @@ func RunLink(prefix, in, out string) error {
 			if json.Unmarshal([]byte(res.Body), &rb) == nil && len(rb.M) > 0 && rb.M[0].G != nil {
 				usedRf = rb.M[0].G.T - 100
 			}
-			updates = append(updates, map[string]any{"n": n + 1, "skipped": false, "finished": !res.Timeout, "status": res.Status, "own": own,
+			updates = append(updates, map[string]any{"n": n + 1, "skipped": false, "finished": !res.Timeout, "status": res.Status, "okStatus": okStatus, "own": own,
 				"usedAbmf": usedAb, "usedRating": usedRf, "usedCost": usedCost, "usedCostFirst": usedCostFirst, "ms": ms})
 			if res.Timeout {
 				wedged = true
